@@ -182,6 +182,42 @@ def oracle_etym(wl, d, ref='cogid'):
     return None
 
 
+def oracle_etym_multi(rng, d):
+    """rows that carry SEVERAL cognate ids (fuzzy / partial cognates: a list or a tuple of ids in the cell): the etymological dictionary
+    lists the row under each of them, and under nothing else"""
+    from lingpy import Wordlist
+    hdr = list(d[0]) + ['cogids']
+    kind = rng.choice(['list', 'tuple', 'mixed'])
+    d2 = {0: hdr}
+    carried = {}
+    for k in d:
+        if k == 0:
+            continue
+        ids = sorted(set(rng.randrange(1, 7) for _ in range(rng.choice([1, 1, 2, 3]))))
+        carried[k] = ids
+        as_tuple = kind == 'tuple' or (kind == 'mixed' and rng.random() < 0.5)
+        d2[k] = list(d[k]) + [tuple(ids) if as_tuple else list(ids)]
+    wl = Wordlist(d2)
+    li = hdr.index('doculect')
+    ety = wl.get_etymdict(ref='cogids')
+    want_keys = sorted(set(g for v in carried.values() for g in v))
+    try:
+        got_keys = sorted(ety)
+    except TypeError:
+        got_keys = list(ety)
+    if got_keys != want_keys:
+        return 'etymdict(cogids given as %s): keys %r, the rows carry the cognate ids %r' % (kind, got_keys[:8], want_keys)
+    for g, slots in ety.items():
+        for j, s in enumerate(slots):
+            for k in (s or []):
+                if g not in carried[k] or str(d2[k][li]) != wl.cols[j]:
+                    return 'etymdict(cogids): id %d listed under %r / %r' % (k, g, wl.cols[j])
+        listed = sorted(k for s in slots for k in (s or []))
+        if listed != sorted(k for k in carried if g in carried[k]):
+            return 'etymdict(cogids given as %s): cognate id %r lists rows %r, carried by rows %r' % (kind, g, listed, sorted(k for k in carried if g in carried[k]))
+    return None
+
+
 def oracle_dst(wl, d, ref='cogid'):
     hdr = d[0]
     ci, li, gi = hdr.index('concept'), hdr.index('doculect'), hdr.index(ref)
@@ -267,13 +303,28 @@ def run_views(chk, which):
                     if k != 0:
                         d[k] = d[k] + [d[k][d[0].index('ipa')][::-1]]
                 stage = 'after add_entries'
+            if which == 'C12' and rng.random() < 0.4 and 'tokens' not in d[0]:
+                # a column of the namespace added after construction: reachable by name and aliases in both cases like any other
+                wl.add_entries('tokens', 'ipa', lambda x: list(x))
+                d[0] = d[0] + ['tokens']
+                for k in d:
+                    if k != 0:
+                        d[k] = d[k] + [list(d[k][d[0].index('ipa')])]
+                stage += ' + configured column added'
+                added_aliases = [('TOKENS', 'tokens'), ('ipatokens', 'tokens'), ('IPATOKENS', 'tokens')]
+            else:
+                added_aliases = []
             nsyn = len(wl._array) - wl.height
             chk.count((which, tuple(sorted((k, tuple(map(str, v))) for k, v in d.items()))), nsyn > 0 or wl.width > 1,
                       branch=['source:' + src, stage, 'synonym-rows:%d' % min(nsyn, 3)])
             e = None
             try:
                 if which == 'C12':
-                    e = oracle_views(wl, d) or oracle_etym(wl, d)
+                    e = oracle_views(wl, d) or oracle_etym(wl, d) or oracle_etym_multi(rng, d)
+                    for alias, target in added_aliases:
+                        for k in list(d)[1:4]:
+                            if not e and wl[k, alias] != d[k][d[0].index(target)]:
+                                e = 'wl[%d, %r] = %r, the row carries %r in column %r (added after construction)' % (k, alias, wl[k, alias], d[k][d[0].index(target)], target)
                     if not e:
                         # renumber
                         # also columns whose values are numbers - the value 0 is a value like any other, only the empty value maps to 0
